@@ -190,7 +190,9 @@ func (b *assignmentBuilder) structFieldAndStructGettersAndFields(
 			}
 		}
 
-		if c, ok := b.castNode(lhs.ExprType(), rhs); ok {
+		// A struct member is not copied as a whole when a notation names something beneath it.
+		memberwise := util.IsStructType(lhs.ExprType()) && util.IsStructType(rhs.ExprType()) && b.addressedBelow(lhs)
+		if c, ok := b.castNode(lhs.ExprType(), rhs); ok && !memberwise {
 			rhsExpr := c.AssignExpr()
 			logger.Printf("%v: assignment found: %v = %v", methodPosStr, lhsExpr, rhsExpr)
 			a = gmodel.SimpleField{LHS: lhsExpr, RHS: rhsExpr, Error: c.ReturnsError()}
@@ -405,6 +407,51 @@ func (b *assignmentBuilder) isStructFieldAccessible(structNode bmodel.Node, leaf
 	}
 	return true
 
+}
+
+// addressed reports whether a :skip, :conv, :map or :literal notation names the destination path.
+func (b *assignmentBuilder) addressed(path string) bool {
+	if b.opts.ShouldSkip(path) {
+		return true
+	}
+	for _, converter := range b.opts.Converters {
+		if converter.Dst().Match(path, true) {
+			return true
+		}
+	}
+	for _, mapper := range b.opts.NameMapper {
+		if mapper.Dst().Match(path, true) {
+			return true
+		}
+	}
+	for _, mapper := range b.opts.TemplatedNameMapper {
+		if mapper.Dst().Match(path, true) {
+			return true
+		}
+	}
+	for _, setter := range b.opts.Literals {
+		if setter.Dst().Match(path, true) {
+			return true
+		}
+	}
+	return false
+}
+
+// addressedBelow reports whether a notation names a member beneath the given destination
+// struct field. Such a field has to be copied member by member for the notation to take effect.
+func (b *assignmentBuilder) addressedBelow(lhs bmodel.Node) bool {
+	if !util.IsStructType(lhs.ExprType()) {
+		return false
+	}
+	found := false
+	bmodel.IterateStructFields(lhs, func(member bmodel.Node) (done bool) {
+		if !b.isStructFieldAccessible(lhs, member.ObjName()) {
+			return
+		}
+		found = b.addressed(member.MatcherExpr()) || b.addressedBelow(member)
+		return found
+	})
+	return found
 }
 
 // isAddressable reports whether the Go expression of the node is addressable:
